@@ -67,7 +67,9 @@ def main(tier):
                     ({"t": "raw", "label": "GET", "lines": ['GET /zfresh3/{zo}/{zq}', '  Path', '    @zpo', '  200 any']},
                      [["interactions", "http GET /zfresh3/{zo}/{zq}"], ["tags", "@zfresh3"]]),
                     ({"t": "raw", "label": "TYPE", "lines": ['TYPE @zfresht', '{ // {allOf: ["@zpk", "@zbase"]}', '  "own": @zuse', '}']},
-                     [["userTypes", "@zfresht"]])]
+                     [["userTypes", "@zfresht"]]),
+                    ({"t": "raw", "label": "TYPE", "lines": ['TYPE @zfreshempty', '{ // {allOf: "@zpk2"}', '}']}, [["userTypes", "@zfreshempty"]]),
+                    ({"t": "raw", "label": "TYPE", "lines": ['TYPE @zfreshempty2', '{} // {allOf: "@zpk2"}']}, [["userTypes", "@zfreshempty2"]])]
             for j, (blk, keys) in enumerate(uses):
                 pos = (n + j) % (len(d) + 1)
                 more, _, _ = apidoc.render(d[:pos] + [blk] + d[pos:])
